@@ -219,6 +219,52 @@ fn lists(kinds: &[VK], max_len: usize) -> Vec<Vec<VK>> {
   out
 }
 
+/// The two-class type shapes as THREE modules: `Types` (A, B, support), `Main` (entry, shows A
+/// terms first) and `Zed` (another `Main` class showing B terms first). Every module's Main.main is
+/// specialised by the compiler, so the order in which modules are visited decides from which end
+/// the mutually recursive types are reached (C12: enum layout decisions must not depend on it).
+pub fn type_shape_three_modules(thorough: bool) -> Vec<(String, Vec<(String, String)>)> {
+  let kinds = [VK::Nullary, VK::Int, VK::Other, VK::StructRef];
+  let all = lists(&kinds, if thorough { 3 } else { 2 });
+  let with_other: Vec<&Vec<VK>> = all.iter().filter(|l| l.contains(&VK::Other)).collect();
+  let pick: Vec<&Vec<VK>> = if thorough { with_other.iter().filter(|l| l.len() <= 2 || l[0] == VK::Other).copied().collect() } else { with_other.into_iter().filter(|l| l.len() == 1 || l.contains(&VK::Nullary) || l.contains(&VK::StructRef)).collect() };
+  let mut out = vec![];
+  for a in &pick {
+    for b in &pick {
+      let ta = terms("A", "B", a, b, 2, 10);
+      let tb = terms("B", "A", b, a, 2, 10);
+      if ta.is_empty() || tb.is_empty() {
+        continue;
+      }
+      let types = format!("{}{}{}", enum_decl("A", "B", a), enum_decl("B", "A", b), SUPPORT);
+      let body = |first: (&str, &Vec<String>), second: (&str, &Vec<String>)| {
+        let mut t = String::from("import { A, B, Box, S, Opt } from Types\nclass Main {\n  function main(): unit = {\n");
+        for (cls, ts) in [first, second] {
+          for x in ts.iter() {
+            t.push_str(&format!("    Process.println({x}.show());\n"));
+            t.push_str(&format!("    Process.println(Opt.Some({x}).fold(\"none\", (v) -> v.show()));\n"));
+          }
+          t.push_str(&format!("    Process.println(Opt.None<{cls}>().fold(\"none\", (v) -> v.show()));\n"));
+          t.push_str(&format!("    Process.println(Box.init({}).get().show());\n", ts[0]));
+        }
+        t.push_str("  }\n}\n");
+        t
+      };
+      let sa: Vec<&str> = a.iter().map(|v| v.tag()).collect();
+      let sb: Vec<&str> = b.iter().map(|v| v.tag()).collect();
+      out.push((
+        format!("three-module A({})+B({})", sa.join(","), sb.join(",")),
+        vec![
+          ("Types".to_string(), types),
+          ("Main".to_string(), body(("A", &ta), ("B", &tb))),
+          ("Zed".to_string(), body(("B", &tb), ("A", &ta))),
+        ],
+      ));
+    }
+  }
+  out
+}
+
 pub fn type_shape_family(thorough: bool) -> Vec<Prog> {
   let mut out = vec![];
   let single_kinds: &[VK] = if thorough {
